@@ -111,6 +111,8 @@ func zzC02_message() {
 	b, err := m.Serialize()
 	vAssert(err == nil, "message serialises")
 	zzBytesEq(b, ref, "C02: message bytes equal the reference RFC 6733 encoding")
+	vObserveBytes("message", b)
+	vObserve("MessageLength", uint64(m.Header.MessageLength))
 	// WriteTo through the pooled serialisation buffer, dirtied by an earlier, longer message
 	dirty := NewMessage(1, 0, 0, 1, 1, d)
 	dirty.NewAVP(uint32(1), 0, 0, datatype.OctetString(vBytes("dirt", vParam("DIRT", 40))))
@@ -118,6 +120,7 @@ func zzC02_message() {
 	w := &zzRecWriter{}
 	n, werr := m.WriteTo(w)
 	vAssert(werr == nil && int(n) == len(ref) && w.calls == 1, "WriteTo writes the whole message once")
+	vObserveBytes("wire", w.got)
 	zzBytesEq(w.got, ref, "C02: bytes on the wire equal the reference encoding (padding zero) even through a reused buffer")
 	// C01: read back with a dictionary that knows the codes
 	if vParam("READBACK", 1) == 1 {
